@@ -422,10 +422,10 @@ Theorem gives_check_simple p m K : lfacts p K ->
     att_from (brd p) (mto m) (stm p) (mfrom m) = true)) ->
   ((mtype m = NORMAL /\ mprom m = 3) \/
    (mtype m = PROMOTION /\ type_of (at_ (brd p) (mfrom m)) = PAWN /\ 3 <= mprom m <= 6)) ->
-  is_legal p m = true ->
+  (type_of (at_ (brd p) (mfrom m)) = KING -> is_legal p m = true) ->
   gives_check_impl (view_of_spec p) (code m) = Some (gives_check p m).
 Proof.
-  intros [Hl Hv Hs HKe HK HKat HKu [Hok1 Hok2] Hou Hno] Hf Ht Hnz Hcol Htgt Hkind Hleg.
+  intros [Hl Hv Hs HKe HK HKat HKu [Hok1 Hok2] Hou Hno] Hf Ht Hnz Hcol Htgt Hkind Hleg0.
   set (b := brd p) in *. set (us := stm p) in *. set (f := mfrom m) in *. set (t := mto m) in *.
   pose proof (valid_type b f Hv Hnz) as [Hty _].
   assert (Hft : f <> t).
@@ -475,7 +475,14 @@ Proof.
     - rewrite N.eqb_refl. right. rewrite Hpc'. apply mk_piece_parts. lia. }
   (* a king move does not go next to the other king *)
   assert (Hking : ty = KING -> existsb (N.eqb K) (king_targets t) = false).
-  { intros Ety. pose proof (legal_king_safe p m Hleg) as Hsafe. fold b' us in Hsafe.
+  { intros Ety.
+    assert (Hfk : type_of (at_ b f) = KING /\ at_ b f = mk_piece us KING).
+    { unfold ty, gc_pt in Ety. destruct Hkind as [[E1 _]|[E1 [_ E4]]]; rewrite E1 in Ety.
+      - change (NORMAL =? PROMOTION) with false in Ety. change (NORMAL =? CASTLING) with false in Ety.
+        cbv iota in Ety. fold b f in Ety. split; [exact Ety|]. rewrite <- Hcol, <- Ety. apply piece_decomp.
+      - change (PROMOTION =? PROMOTION) with true in Ety. cbv iota in Ety. unfold KING in Ety. lia. }
+    destruct Hfk as [Hfk0 Hfk]. pose proof (Hleg0 Hfk0) as Hleg.
+    pose proof (legal_king_safe p m Hleg) as Hsafe. fold b' us in Hsafe.
     assert (Hkt : king_sq b' us = t).
     { apply king_sq_intro; [exact Ht| |].
       - rewrite Hat', N.eqb_refl, Hpc', Ety. reflexivity.
@@ -483,11 +490,6 @@ Proof.
         destruct (N.eqb_spec s t) as [E|E]; [exact E|]. exfalso.
         destruct (N.eqb_spec s f) as [E2|E2]; [unfold mk_piece, KING in Hs''; lia|].
         pose proof (Hou s Hs' Hs'') as E3.
-        assert (Hfk : at_ b f = mk_piece us KING).
-        { unfold ty, gc_pt in Ety. destruct Hkind as [[E1 _]|[E1 [_ E4]]]; rewrite E1 in Ety.
-          - change (NORMAL =? PROMOTION) with false in Ety. change (NORMAL =? CASTLING) with false in Ety.
-            cbv iota in Ety. fold b f in Ety. rewrite <- Hcol, <- Ety. apply piece_decomp.
-          - change (PROMOTION =? PROMOTION) with true in Ety. cbv iota in Ety. unfold KING in Ety. lia. }
         pose proof (Hou f Hf Hfk). congruence. }
     rewrite Hkt in Hsafe.
     pose proof (not_attacked_all b' t (flip us) Ht (flip_lt _ Hs) Hsafe K HK) as Hn.
@@ -704,9 +706,10 @@ Section Castle.
                                         else if a =? kt then mk_piece us KING else if a =? kf then 0 else at_ b a.
   Hypothesis Hadj : existsb (N.eqb K) (king_targets kt) = false.
 
-  Let o := occ_of b.
-  Let o1 := N.lor (N.ldiff o (bit kf)) (bit rt).
-  Let o' := occ_of b'.
+  Variables (o o1 o' : N).
+  Hypothesis Ho : o = occ_of b.
+  Hypothesis Ho1 : o1 = N.lor (N.ldiff o (bit kf)) (bit rt).
+  Hypothesis Ho' : o' = occ_of b'.
 
   Lemma geom_at d :
     (ray_in 0 d rt K = true -> mem rf (btw d rt K) = false /\ mem kt (btw d rt K) = false) /\
@@ -727,13 +730,13 @@ Section Castle.
   Qed.
 
   Lemma o1_bit u : N.testbit o1 u = (N.testbit o u && negb (u =? kf)) || (u =? rt).
-  Proof. unfold o1, bit. now rewrite N.lor_spec, N.ldiff_spec, !shiftl1_testbit. Qed.
+  Proof. rewrite Ho1. unfold bit. now rewrite N.lor_spec, N.ldiff_spec, !shiftl1_testbit. Qed.
 
   Lemma o'_bit u : N.testbit o' u = (u <? 64) && negb (at_ b' u =? 0).
-  Proof. apply occ_of_testbit. Qed.
+  Proof. rewrite Ho'. apply occ_of_testbit. Qed.
 
   Lemma o_bit u : N.testbit o u = (u <? 64) && negb (at_ b u =? 0).
-  Proof. apply occ_of_testbit. Qed.
+  Proof. rewrite Ho. apply occ_of_testbit. Qed.
 
   Lemma nz_king : (mk_piece us KING =? 0) = false.
   Proof. apply N.eqb_neq. unfold mk_piece, KING. lia. Qed.
@@ -815,7 +818,7 @@ Section Castle.
     - intros [H|[a [X [HX [Ha [Hpa Hsl]]]]]].
       + (* direct: the rook on its new square *)
         exists rt. split; [exact L4|]. rewrite (att_from_piece b' K us rt ROOK Hrt') by (unfold ROOK; lia).
-        rewrite type_clause_rook by assumption. fold o'.
+        rewrite type_clause_rook by assumption. rewrite <- Ho'.
         unfold direct_b in H. change (ROOK =? PAWN) with false in H. change (ROOK =? KING) with false in H.
         change (ROOK =? KNIGHT) with false in H. cbv iota in H. rewrite slide_testbit in H.
         change (dirs_of ROOK) with rook_dirs in H. rewrite slide_agree_rt in H.
@@ -834,20 +837,20 @@ Section Castle.
           subst X. change (dirs_of ROOK) with rook_dirs in Hsl. unfold slide_in in Hsl.
           apply existsb_exists in Hsl as [d [Hd Hr]]. apply corner_before in Hr.
           pose proof (Hno rf L3) as Hn. rewrite (att_from_piece b K us rf ROOK Hrf) in Hn by (unfold ROOK; lia).
-          rewrite type_clause_rook in Hn by assumption. fold o in Hn. unfold slide_in in Hn.
+          rewrite type_clause_rook in Hn by assumption. rewrite <- Ho in Hn. unfold slide_in in Hn.
           assert (existsb (fun d => ray_in o d K rf) rook_dirs = true) by (apply existsb_exists; now exists d).
           congruence. }
         exists a. split; [exact Ha|].
         assert (Hpa' : at_ b' a = mk_piece us X) by (rewrite Hsame; assumption).
         rewrite (att_from_piece b' K us a X Hpa') by exact HXr.
-        rewrite slider_clause by assumption. fold o'. now rewrite <- slide_agree_K.
+        rewrite slider_clause by assumption. rewrite <- Ho'. now rewrite <- slide_agree_K.
     - intros [a [Ha Hatt]].
       destruct (att_from_inv _ _ _ _ Hatt) as [ty' [Hty' [Hpa Hcl]]].
       destruct (N.eq_dec a rt) as [->|N4].
       { (* the rook on its new square: direct check *)
         left. assert (ty' = ROOK).
         { rewrite Hrt' in Hpa. unfold mk_piece in Hpa. lia. }
-        subst ty'. rewrite type_clause_rook in Hcl by assumption. fold o' in Hcl.
+        subst ty'. rewrite type_clause_rook in Hcl by assumption. rewrite <- Ho' in Hcl.
         unfold direct_b. change (ROOK =? PAWN) with false. change (ROOK =? KING) with false.
         change (ROOK =? KNIGHT) with false. cbv iota. rewrite slide_testbit.
         change (dirs_of ROOK) with rook_dirs. rewrite slide_agree_rt.
@@ -871,6 +874,160 @@ Section Castle.
       + exfalso. pose proof (Hno a Ha) as Hn. rewrite (att_from_piece b K us a ty' Hpa) in Hn by lia.
         rewrite (nonslider_clause b b' K us a ty' Hns) in Hn. congruence.
       + exists a, ty'. repeat split; try assumption.
-        rewrite slider_clause in Hcl by assumption. fold o' in Hcl. now rewrite slide_agree_K.
+        rewrite slider_clause in Hcl by assumption. rewrite <- Ho' in Hcl. now rewrite slide_agree_K.
   Qed.
 End Castle.
+
+Lemma make_brd_castle p m : mtype m = CASTLING ->
+  brd (make p m) =
+  put (put (put (put (brd p) (mfrom m) 0) (mto m) (at_ (brd p) (mfrom m)))
+           (fst (rook_castle_squares (mto m))) 0)
+      (snd (rook_castle_squares (mto m))) (mk_piece (stm p) ROOK).
+Proof.
+  intros H. unfold make. cbn [brd]. rewrite H.
+  change (CASTLING =? PROMOTION) with false. change (CASTLING =? ENPASSANT) with false.
+  change (CASTLING =? CASTLING) with true. cbv iota.
+  now destruct (rook_castle_squares (mto m)).
+Qed.
+
+Lemma gives_check_castle_gen p K kf kt rf rt empties :
+  lfacts p K ->
+  kf < 64 /\ kt < 64 /\ rf < 64 /\ rt < 64 ->
+  kf <> kt /\ kf <> rf /\ kf <> rt /\ kt <> rf /\ kt <> rt /\ rf <> rt ->
+  at_ (brd p) kf = mk_piece (stm p) KING -> at_ (brd p) rf = mk_piece (stm p) ROOK ->
+  (forall e, In e empties -> at_ (brd p) e = 0) -> In kt empties -> In rt empties ->
+  castle_geom_ok kf kt rf rt empties = true ->
+  rook_castle_squares kt = (rf, rt) -> castle_rook_to kt = rt ->
+  is_legal p (mkmv kf kt CASTLING 3) = true ->
+  gives_check_impl (view_of_spec p) (code (mkmv kf kt CASTLING 3)) = Some (gives_check p (mkmv kf kt CASTLING 3)).
+Proof.
+  intros [Hl Hv Hs HKe HK HKat HKu [Hok1 Hok2] Hou Hno] Hlt Hdist Hkf Hrf Hemp Hktin Hrtin Hgeom Hrcs Hcrt Hleg.
+  set (m := mkmv kf kt CASTLING 3) in *.
+  set (b := brd p) in *. set (us := stm p) in *.
+  pose proof Hlt as (L1 & L2 & L3 & L4). pose proof Hdist as (D1 & D2 & D3 & D4 & D5 & D6).
+  assert (Hkt : at_ b kt = 0) by now apply Hemp.
+  assert (Hrt : at_ b rt = 0) by now apply Hemp.
+  assert (Hb'e : brd (make p m) = put (put (put (put b kf 0) kt (mk_piece us KING)) rf 0) rt (mk_piece us ROOK)).
+  { rewrite make_brd_castle by reflexivity. cbn [mfrom mto m]. fold b us. rewrite Hrcs, Hkf. reflexivity. }
+  set (b' := brd (make p m)) in *.
+  assert (Hl1 : length (put b kf 0) = 64%nat) by now rewrite put_length.
+  assert (Hl2 : length (put (put b kf 0) kt (mk_piece us KING)) = 64%nat) by now rewrite put_length.
+  assert (Hl3 : length (put (put (put b kf 0) kt (mk_piece us KING)) rf 0) = 64%nat) by now rewrite put_length.
+  assert (Hb' : forall a, at_ b' a = if a =? rt then mk_piece us ROOK else if a =? rf then 0
+                 else if a =? kt then mk_piece us KING else if a =? kf then 0 else at_ b a).
+  { intros a. rewrite Hb'e. rewrite at_put by assumption. destruct (a =? rt); [reflexivity|].
+    rewrite at_put by assumption. destruct (a =? rf); [reflexivity|].
+    rewrite at_put by assumption. destruct (a =? kt); [reflexivity|]. now rewrite at_put. }
+  assert (HKne : forall a pc, at_ b a = pc -> pc <> mk_piece (flip us) KING -> K <> a).
+  { intros a pc Ha Hn E. rewrite <- E in Ha. fold b in HKat. congruence. }
+  assert (Hcolne : forall ty, ty < 8 -> mk_piece us ty <> mk_piece (flip us) KING).
+  { intros ty Hty E. assert (colour_of (mk_piece us ty) = colour_of (mk_piece (flip us) KING)) by now rewrite E.
+    destruct (mk_piece_parts us ty Hty) as [Hc _].
+    destruct (mk_piece_parts (flip us) KING) as [Hc' _]; [unfold KING; lia|].
+    rewrite Hc, Hc' in H. symmetry in H. now apply flip_neq in H. }
+  assert (Hzne : 0 <> mk_piece (flip us) KING) by (unfold mk_piece, KING; lia).
+  assert (HKok : mem K (kf :: rf :: empties) = false).
+  { destruct (mem K (kf :: rf :: empties)) eqn:E; [|reflexivity]. exfalso.
+    apply mem_In in E. destruct E as [E|[E|E]].
+    - symmetry in E. revert E. apply (HKne kf _ Hkf). apply Hcolne. unfold KING. lia.
+    - symmetry in E. revert E. apply (HKne rf _ Hrf). apply Hcolne. unfold ROOK. lia.
+    - specialize (Hemp K E). fold b in HKat. rewrite HKat in Hemp. now apply Hzne. }
+  assert (HnK : ~ In K [kf; kt; rf; rt]).
+  { cbn [In]. intros [E|[E|[E|[E|[]]]]]; symmetry in E; revert E.
+    - apply (HKne kf _ Hkf). apply Hcolne. unfold KING. lia.
+    - apply (HKne kt _ Hkt). exact Hzne.
+    - apply (HKne rf _ Hrf). apply Hcolne. unfold ROOK. lia.
+    - apply (HKne rt _ Hrt). exact Hzne. }
+  assert (Hsame : forall a, a < 64 -> ~ In a [kf; kt; rf; rt] -> at_ b' a = at_ b a).
+  { intros a _ Hn. rewrite Hb'. cbn [In] in Hn.
+    destruct (N.eqb_spec a rt); [exfalso; apply Hn; auto|].
+    destruct (N.eqb_spec a rf); [exfalso; apply Hn; auto|].
+    destruct (N.eqb_spec a kt); [exfalso; apply Hn; auto|].
+    destruct (N.eqb_spec a kf); [exfalso; apply Hn; auto|reflexivity]. }
+  assert (Hat_kt : at_ b' kt = mk_piece us KING).
+  { rewrite Hb'. apply N.eqb_neq in D5, D4. now rewrite D5, D4, N.eqb_refl. }
+  assert (Hat_rt : at_ b' rt = mk_piece us ROOK) by (rewrite Hb', N.eqb_refl; reflexivity).
+  assert (Hat_rf : at_ b' rf = 0).
+  { rewrite Hb'. apply N.eqb_neq in D6. now rewrite D6, N.eqb_refl. }
+  assert (Hat_kf : at_ b' kf = 0).
+  { rewrite Hb'. apply N.eqb_neq in D1, D2, D3. now rewrite D3, D2, D1, N.eqb_refl. }
+  assert (HK' : king_sq b' (flip us) = K).
+  { apply (king_after b b' us K [kf; kt; rf; rt]); try assumption.
+    intros a [<-|[<-|[<-|[<-|[]]]]].
+    - now left.
+    - right. rewrite Hat_kt. apply mk_piece_parts. unfold KING. lia.
+    - now left.
+    - right. rewrite Hat_rt. apply mk_piece_parts. unfold ROOK. lia. }
+  assert (Hadj : existsb (N.eqb K) (king_targets kt) = false).
+  { pose proof (legal_king_safe p m Hleg) as Hsafe. fold b' us in Hsafe.
+    assert (Hkq : king_sq b' us = kt).
+    { apply king_sq_intro; [exact L2|exact Hat_kt|].
+      intros s Hs' Hs''. destruct (in_dec N.eq_dec s [kf; kt; rf; rt]) as [Hin|Hin].
+      - destruct Hin as [<-|[<-|[<-|[<-|[]]]]]; try reflexivity; exfalso.
+        + rewrite Hat_kf in Hs''. unfold mk_piece, KING in Hs''. lia.
+        + rewrite Hat_rf in Hs''. unfold mk_piece, KING in Hs''. lia.
+        + rewrite Hat_rt in Hs''. unfold mk_piece, KING, ROOK in Hs''. lia.
+      - exfalso. rewrite (Hsame s Hs' Hin) in Hs''. pose proof (Hou s Hs' Hs'') as E1.
+        pose proof (Hou kf L1 Hkf) as E2. apply Hin. left. congruence. }
+    rewrite Hkq in Hsafe.
+    pose proof (not_attacked_all b' kt (flip us) L2 (flip_lt _ Hs) Hsafe K HK) as Hn.
+    assert (HKat' : at_ b' K = mk_piece (flip us) KING) by (rewrite Hsame; assumption).
+    rewrite (att_from_piece b' kt (flip us) K KING HKat') in Hn by (unfold KING; lia).
+    change (type_clause b' kt (flip us) K KING) with (existsb (N.eqb kt) (king_targets K)) in Hn.
+    now rewrite king_sym. }
+  assert (Hc1 : mtype m < 4) by (unfold m; cbn [mtype]; unfold CASTLING; lia).
+  assert (Hc2 : 3 <= mprom m <= 6) by (unfold m; cbn [mprom]; lia).
+  assert (Hc3 : mtype m = ENPASSANT -> 8 <= mto m < 56) by (intros E; discriminate).
+  assert (Hc4 : 1 <= gc_pt p m <= 6) by (change (gc_pt p m) with ROOK; unfold ROOK; lia).
+  rewrite (gives_check_eval p m K Hl (valid_codes_ok _ Hv) Hs HKe HK L1 L2 Hc1 Hc2 Hc4 Hc3).
+  f_equal. rewrite gives_check_unfold by exact Hs. fold b' us. rewrite HK'.
+  change (gc_pt p m) with ROOK. change (gc_to m) with (castle_rook_to kt). rewrite Hcrt.
+  assert (Ho1 : gc_occ p m = N.lor (N.ldiff (occ_of b) (bit kf)) (bit rt)).
+  { unfold gc_occ. change (mtype m =? ENPASSANT) with false. cbv iota.
+    change (gc_to m) with (castle_rook_to kt). now rewrite Hcrt. }
+  apply (castle_core b b' us K kf kt rf rt empties Hs HK Hl Hno Hlt Hdist Hkf Hrf Hkt Hrt Hgeom HKok Hb' Hadj
+           (occ_of b) (gc_occ p m) (occ_of b') eq_refl Ho1 eq_refl).
+Qed.
+
+(** ** GivesCheck, all four move types *)
+
+(* every pseudo-legal move; a king move (castling included) has to be legal, because the
+   engine never lets a king "give check" (position.go:689) *)
+Definition king_move (p : pos) (m : mv) : Prop :=
+  mtype m = CASTLING \/ type_of (at_ (brd p) (mfrom m)) = KING.
+
+Theorem gives_check_exact_pseudo p m : legal_pos p = true -> In m (pseudo p) ->
+  (king_move p m -> is_legal p m = true) ->
+  gives_check_impl (view_of_spec p) (code m) = Some (gives_check p m).
+Proof.
+  intros Hlp Hin Hleg. pose proof (legal_pos_facts p Hlp) as Hf.
+  destruct (pseudo_inv p m Hin) as [H1 H2 H3 H4 H5 H6 | H1 H2 H3 H4 H5 H6 H7 H8 | kf kt rf bt empties Hc Hm Hk Hr He].
+  - apply (gives_check_simple p m _ Hf); try assumption. intros E. apply Hleg. now right.
+  - now apply (gives_check_ep p m _ Hlp Hf).
+  - assert (Hleg' : is_legal p m = true) by (apply Hleg; left; now subst m). clear Hleg.
+    subst m. unfold is_piece in Hk, Hr. apply N.eqb_eq in Hk, Hr.
+    assert (Hemp : forall e, In e empties -> at_ (brd p) e = 0).
+    { intros e Hein. rewrite forallb_forall in He. specialize (He e Hein). now apply N.eqb_eq in He. }
+    pose proof (lf_stm _ _ Hf) as Hs.
+    assert (Hg : castle_geom_ok kf kt rf (snd (rook_castle_squares kt)) empties = true).
+    { pose proof castle_geom_all as H. rewrite forallb_forall in H.
+      assert (Hi : In (stm p) [0; 1]) by (cbn; lia). specialize (H _ Hi). rewrite forallb_forall in H.
+      exact (H _ Hc). }
+    assert (stm p = 0 \/ stm p = 1) as [E|E] by lia; rewrite E in Hc; cbn [castles N.eqb WHITE] in Hc;
+      destruct Hc as [Hc|[Hc|[]]]; injection Hc as <- <- <- <- <-.
+    + apply (gives_check_castle_gen p _ 4 6 7 5 [5; 6] Hf); try assumption; try reflexivity;
+        try (repeat split; lia); cbn; tauto.
+    + apply (gives_check_castle_gen p _ 4 2 0 3 [1; 2; 3] Hf); try assumption; try reflexivity;
+        try (repeat split; lia); cbn; tauto.
+    + apply (gives_check_castle_gen p _ 60 62 63 61 [61; 62] Hf); try assumption; try reflexivity;
+        try (repeat split; lia); cbn; tauto.
+    + apply (gives_check_castle_gen p _ 60 58 56 59 [57; 58; 59] Hf); try assumption; try reflexivity;
+        try (repeat split; lia); cbn; tauto.
+Qed.
+
+Theorem gives_check_exact p m : legal_pos p = true -> In m (legal p) ->
+  gives_check_impl (view_of_spec p) (code m) = Some (gives_check p m).
+Proof.
+  intros Hlp Hin. unfold legal in Hin. apply filter_In in Hin as [H1 H2].
+  apply gives_check_exact_pseudo; auto.
+Qed.
